@@ -104,6 +104,11 @@ type Cluster struct {
 
 	lagging    *Node
 	healing    bool
+	// lagging-voter scenario: the lagging voter, the new leader, and the time of Z's last
+	// rejection of an AppendEntries request of L that was not followed by an accepted one.
+	scenZ, scenL string
+	scenRejectAt int64
+	scenRound    int
 	healedInMs int64
 	window     *stickyWindow
 	Stats      RunStats
@@ -112,7 +117,7 @@ type Cluster struct {
 // RunStats are counters reported in the evidence.
 type RunStats struct {
 	Crashes, Restarts, Partitions, Heals, ClockJumps, Stalls, TornWrites, LostUnsyncedFiles int64
-	CrashAtOp, CrashNow, DiskErrors, StopStarts, Redeliveries, LinkFlaps                               int64
+	CrashAtOp, CrashAtOpKind, CrashNow, DiskErrors, StopStarts, Redeliveries, LinkFlaps, SlowLinks                               int64
 	RestartFailures                                                                          int64
 	OpsInvoked, OpsOK, OpsFailed, OpsTimeout, OpsKilled                                      int64
 	WritesOK, LinReadsOK, LeaseReadsOK                                                      int64
